@@ -576,7 +576,7 @@ func runNative(lr *loadResult, reports []*harnessReport, tier string, seed int64
 			// runs alone, so that the batch of the other cases survives
 			var isolated, batch []nativeCase
 			for _, c := range cases {
-				if r := refs[c.ID]; r.kind != "diff" && strings.Contains(r.v.Clause, "terminates") {
+				if r := refs[c.ID]; r.v != nil && r.kind != "diff" && strings.Contains(r.v.Clause, "terminates") {
 					isolated = append(isolated, c)
 				} else {
 					batch = append(batch, c)
